@@ -4,6 +4,8 @@ import (
 	"fmt"
 	"go/ast"
 	"go/token"
+	"go/types"
+	"regexp"
 	"sort"
 	"strconv"
 	"strings"
@@ -666,6 +668,34 @@ func (x *FnIndex) boolForm(v ssa.Value, leaf func(ssa.Value) string, depth int) 
 	return "?<" + x.Describe(o) + ">"
 }
 
+// canonBoolForm rewrites a formula into the spelling the tables use, for totally
+// ordered operands: !(a == b) is (a != b), ((a < b) || (a == b)) is (a <= b), and so on.
+func canonBoolForm(f string) string {
+	for i := 0; i < 4; i++ {
+		g := reNotEq.ReplaceAllString(f, "($1 != $2)")
+		g = reNotNe.ReplaceAllString(g, "($1 == $2)")
+		g = reLe.ReplaceAllStringFunc(g, func(m string) string {
+			sm := reLe.FindStringSubmatch(m)
+			if sm[1] == sm[4] && sm[3] == sm[5] {
+				return "(" + sm[1] + " " + sm[2] + "= " + sm[3] + ")"
+			}
+			return m
+		})
+		if g == f {
+			break
+		}
+		f = g
+	}
+	return f
+}
+
+var (
+	reOperand = `([A-Za-z][A-Za-z0-9_.]*(?:\(\))?)`
+	reNotEq   = regexp.MustCompile(`!\(` + reOperand + ` == ` + reOperand + `\)`)
+	reNotNe   = regexp.MustCompile(`!\(` + reOperand + ` != ` + reOperand + `\)`)
+	reLe      = regexp.MustCompile(`\(\(` + reOperand + ` ([<>]) ` + reOperand + `\) \|\| \(` + reOperand + ` == ` + reOperand + `\)\)`)
+)
+
 func (c *Ctx) ruleE3(rule string) {
 	keys, identity := c.typeMapKeys()
 	numeric := allKinds[:12]
@@ -964,7 +994,72 @@ func (c *Ctx) ruleE3(rule string) {
 				pos = st.Pos()
 			}
 		})
-		return form, pos
+		if form != "" {
+			return canonBoolForm(form), pos
+		}
+		// the comparison's outcome may first be put in a bool variable under the test edge and
+		// wrapped by reflect.ValueOf further on (one wrapping shared by all operators)
+		eachInstr(f, func(in ssa.Instruction) {
+			vo, ok := in.(*ssa.Call)
+			if !ok || form != "" || !fnIs(vo.Call.StaticCallee(), "reflect", "", "ValueOf") {
+				return
+			}
+			arg := x.Unwrap(vo.Call.Args[0])
+			if bt, isB := arg.Type().Underlying().(*types.Basic); !isB || bt.Kind() != types.Bool {
+				return
+			}
+			var under []PVal
+			for _, pv := range x.PossibleValues(arg) {
+				if pv.Store != nil && !pv.Outside && pv.V != nil && dom[pv.Store.Block()] {
+					under = append(under, pv)
+				}
+			}
+			switch len(under) {
+			case 1:
+				form = x.boolForm(under[0].V, leaf, 0)
+			case 2:
+				// `a || b` / `a && b` after its merge point was split: two stores under one
+				// further test g, one of them a constant: g ? true : b  is  g || b, and so on
+				var g ssa.Value
+				gpol := map[int]bool{}
+				for i, pv := range under {
+					for _, gd := range x.GuardsOf(pv.Store.Block()) {
+						if dom[gd.If.Block()] && x.edgeDominated(gd.If.Block(), 0)[pv.Store.Block()] != x.edgeDominated(gd.If.Block(), 1)[pv.Store.Block()] {
+							if x.edgeDominated(gd.If.Block(), 0)[under[1-i].Store.Block()] || x.edgeDominated(gd.If.Block(), 1)[under[1-i].Store.Block()] {
+								g = gd.Cond
+								gpol[i] = gd.Pol
+							}
+						}
+					}
+				}
+				if g != nil && len(gpol) == 2 && gpol[0] != gpol[1] {
+					t, e := under[0], under[1] // t: value when g holds
+					if !gpol[0] {
+						t, e = e, t
+					}
+					gs := x.boolForm(g, leaf, 0)
+					tb, tIsC := constBool(t.V)
+					eb, eIsC := constBool(e.V)
+					switch {
+					case tIsC && tb:
+						form = "(" + gs + " || " + x.boolForm(e.V, leaf, 0) + ")"
+					case tIsC && !tb:
+						form = "(!" + gs + " && " + x.boolForm(e.V, leaf, 0) + ")"
+					case eIsC && !eb:
+						form = "(" + gs + " && " + x.boolForm(t.V, leaf, 0) + ")"
+					case eIsC && eb:
+						form = "(!" + gs + " || " + x.boolForm(t.V, leaf, 0) + ")"
+					}
+				}
+			}
+			if form != "" {
+				pos = under[0].Store.Pos()
+				if !pos.IsValid() {
+					pos = vo.Pos()
+				}
+			}
+		})
+		return canonBoolForm(form), pos
 	}
 	cmpLits := c.ruleLiterals("ComparisonOperator")
 	wantNum := map[string]string{"==": "eq", "!=": "!eq", ">": "gt", "<": "lt", ">=": "(gt || eq)", "<=": "(lt || eq)"}
@@ -1126,8 +1221,8 @@ func (c *Ctx) ruleE4(rule string) {
 		}
 		c.Check(rule, "Expression.Evaluate#not "+name, okKind, r.Pos(), "`!%s`: .Bool() must be applied only to a value whose kind was checked to be bool (otherwise it panics instead of failing with an error)", name)
 	})
-	c.Check(rule, "Expression.Evaluate#not-applied-last", len(notOrder) == 3 && strings.Join(notOrder, ",") == strings.Join(plainOrder, ","), notT.iff.Pos(), "with `!` the operands are considered in the order %v, without it in the order %v (must be the same three: the negation is applied to the value the expression would otherwise yield)", notOrder, plainOrder)
-	c.Min(rule, 4)
+	c.Check(rule, "Expression.Evaluate#not-applied-last", len(notOrder) >= 1 && strings.Join(notOrder, ",") == strings.Join(plainOrder, ","), notT.iff.Pos(), "with `!` the operands are considered in the order %v, without it in the order %v (must be the same: the negation is applied to the value the expression would otherwise yield)", notOrder, plainOrder)
+	c.Min(rule, 2)
 }
 
 // ---- E5 -----------------------------------------------------------------------
@@ -1393,7 +1488,7 @@ func (c *Ctx) ruleE6(rule string) {
 			c.Check(rule, key, okR, r.Pos(), "%s", orStr(why, "a value, or an error"))
 		})
 	}
-	c.Min(rule, 20)
+	c.Min(rule, 10)
 }
 
 func runC01(c *Ctx) {
